@@ -114,6 +114,8 @@ pub enum Op {
     DropOne(usize),
     DropBar(usize),
     Remove(usize),
+    /// `mp.add(bar.clone())` on a bar that already is a member: the bar moves to the end of the list
+    ReAdd(usize),
     MpClear,
     Align(bool),
     DropMp,
@@ -154,6 +156,7 @@ impl Op {
             Op::DropOne(_) => "drop_handle",
             Op::DropBar(_) => "drop",
             Op::Remove(_) => "remove",
+            Op::ReAdd(_) => "re-add",
             Op::MpClear => "mp_clear",
             Op::Align(_) => "set_alignment",
             Op::DropMp => "drop_mp",
@@ -1033,6 +1036,37 @@ impl World {
                 ctx.forced = true;
                 ctx.removed = Some(*b);
                 Some(Box::new(move || mp.remove(&h)))
+            }
+            Op::ReAdd(b) => {
+                let mp = self.mp.clone()?;
+                let bar = live!(b);
+                if bar.m.place != Place::Member {
+                    return None;
+                }
+                // the bar leaves its old position at once (its old slot is emptied and the list redrawn) and
+                // shows up at the end of the list with its next draw
+                bar.m.lo = None;
+                bar.m.shown = None;
+                bar.m.on_screen = false;
+                let h = bar.handles[0].clone();
+                self.order.retain(|x| x != b);
+                self.order.push(*b);
+                // every finished-and-dropped bar that may still sit in the real list is now in front of it
+                for g in self.bars.iter_mut().flatten() {
+                    if let Place::Ghost { ahead, behind, .. } = &mut g.m.place {
+                        ahead.retain(|x| x != b);
+                        if !behind.contains(b) {
+                            behind.push(*b);
+                        }
+                    }
+                }
+                // (the emptied slot stays in the real list: index-based inserts are ambiguous from now on)
+                self.dropped_members = true;
+                self.intervene();
+                ctx.acting = None;
+                ctx.forced = true;
+                ctx.removed = Some(*b);
+                Some(Box::new(move || drop(mp.add(h.clone()))))
             }
             Op::MpClear => {
                 let mp = self.mp.clone()?;
